@@ -3,6 +3,7 @@
 // (generic by-identifier, dedicated, legacy), interleaved over several buffers; buffers are
 // relocated (only the bytes survive) and cloned; after every operation the whole allocation and
 // every returned value are compared with an executable reference model driven by spec/fields.def.
+#include <sys/mman.h>
 #include <unistd.h>
 #include <algorithm>
 #include <cstring>
@@ -73,7 +74,7 @@ static std::string gen(const std::string &prop, uint64_t base, uint64_t idx, boo
     auto line = [&](const std::string &l) { o += l; o += '\n'; };
     int ntasks = (int)r.range(1, 4);
     line(strf("plan v1 engine=" REC_ENGINE_NAME " prop=%s seed=0x%llx idx=%llu", prop.c_str(), (unsigned long long)seed, (unsigned long long)idx));
-    line(strf("cfg tasks=%d gseed=0x%llx", ntasks, (unsigned long long)r.next()));
+    line(strf("cfg tasks=%d gseed=0x%llx pages=%d", ntasks, (unsigned long long)r.next(), (int)(idx % 5 == 2)));
     struct B { int id, task; const BindFormat *f; int pay; };
     std::vector<B> bufs;
     int id = 0;
@@ -138,6 +139,16 @@ static std::string gen(const std::string &prop, uint64_t base, uint64_t idx, boo
         if (r.chance(0.06)) {
             const BindField *cfl = &f->fields[r.below(f->nfields)];
             if (cfl->ncset) { line(strf("op b=%d setc f=%s k=%u", b.id, cfl->name, (unsigned)r.below(cfl->ncset))); written[b.id].push_back(cfl->name); continue; }
+        }
+        if (std::string(f->name) == "Vss" && b.pay >= 300 && r.chance(0.10)) {
+            // the VSS codec proper, scalar datatypes: addressing mode and datatype fields, path (static id or length-prefixed string) and value
+            unsigned am = (unsigned)r.below(2), dt = (unsigned)r.below(11);
+            static const unsigned nb[] = {1, 1, 2, 2, 4, 4, 8, 8, 1, 4, 8};
+            unsigned room = (unsigned)b.pay - nb[dt] - 2;
+            unsigned plen = am == 1 ? 0 : (unsigned)(r.chance(0.4) ? std::min<unsigned>(room, (unsigned[]){0, 1, 13, 255, 256, 1009, 1010, 1013, 1020, 1021, 2000}[r.below(11)]) : r.below(room + 1));
+            line(strf("op b=%d vssenc am=%u dt=%u plen=%u sid=0x%x v=0x%llx pseed=0x%llx", b.id, am, dt, plen, (unsigned)r.next(), (unsigned long long)(dt == 8 ? r.below(2) : r.next()),
+                      (unsigned long long)r.next()));
+            continue;
         }
         if (std::string(f->name) == "Vss" && b.pay >= 300 && r.chance(0.12)) {
             // Avtp_Vss_Pad is a compound write as well: zeroed padding, acf_msg_length and pad fields for a message of the given length
@@ -281,6 +292,18 @@ __attribute__((noinline, no_sanitize("address"))) static void dirty_stack(uint64
     __asm__ volatile("" ::: "memory");
 }
 
+// Buffers live in malloc'ed blocks, or (cfg pages=1) in pages of their own that are made READ-ONLY while a getter runs:
+// reading a field must not store to the PDU (a header in a const test vector or a read-only mapping is a legitimate argument).
+static bool g_pages = false;
+static size_t pages_len(size_t n) { return (n + 8 + 4095) & ~(size_t)4095; }
+static uint8_t *buf_alloc(size_t n) {
+    if (!g_pages) return (uint8_t *)malloc(n + 8);
+    void *p = mmap(nullptr, pages_len(n), PROT_READ | PROT_WRITE, MAP_PRIVATE | MAP_ANONYMOUS, -1, 0);
+    return p == MAP_FAILED ? nullptr : (uint8_t *)p;
+}
+static void buf_free(uint8_t *p, size_t n) { if (!g_pages) free(p); else munmap(p, pages_len(n)); }
+static void buf_protect(uint8_t *raw, size_t n, bool ro) { if (g_pages) mprotect(raw, pages_len(n), ro ? PROT_READ : PROT_READ | PROT_WRITE); }
+
 static uint64_t g_dirty_pat = ~0ULL;
 #define DIRTY() dirty_stack(g_dirty_pat)
 
@@ -330,7 +353,7 @@ static void exec(const std::string &text, bool verbose) {
         if (line.empty() || line[0] == '#') continue;
         sim::KV kv(line);
         if (kv.op == "plan") { prop = kv.str("prop", "C05"); continue; }
-        if (kv.op == "cfg") { gseed = kv.u64("gseed", 1); garbage.reseed(gseed); if (sim::g_shm) snprintf(sim::g_shm->context, sizeof sim::g_shm->context, "%s", prop.c_str()); continue; }
+        if (kv.op == "cfg") { g_pages = kv.u64("pages", 0); gseed = kv.u64("gseed", 1); garbage.reseed(gseed); if (sim::g_shm) snprintf(sim::g_shm->context, sizeof sim::g_shm->context, "%s", prop.c_str()); continue; }
         if (kv.op == "buf") {
             Buf b;
             b.id = (int)kv.u64("id");
@@ -349,7 +372,8 @@ static void exec(const std::string &text, bool verbose) {
             } else {
                 Alloc a;
                 a.size = kGuard + b.f->spec_bytes + kv.u64("pay") + kGuard;
-                a.raw = (uint8_t *)malloc(a.size + 8);
+                a.raw = buf_alloc(a.size);
+                if (!a.raw) continue;
                 a.mem = a.raw + (kv.u64("align", 0) & 7);
                 fill_garbage(a.mem, a.size, garbage);
                 a.model.assign(a.mem, a.mem + a.size);
@@ -446,10 +470,13 @@ static void exec(const std::string &text, bool verbose) {
             if ((via == "gen" && (!f->getfield || fl->field_id < 0)) || (via == "ded" && !fl->get) || (via == "leg" && (!f->legacy_get || fl->field_id < 0))) continue;
             uint64_t got = 0;
             int how = via == "gen" ? 0 : via == "ded" ? 1 : 2;
+            buf_protect(a.raw, a.size, true);
+            if (g_pages) per_entry["entry.get.on_read_only_pages"]++;
             DIRTY();
             if (how == 0) got = f->getfield(pdu, fl->field_id);
             else if (how == 1) got = fl->get(pdu);
             else f->legacy_get(pdu, fl->legacy_id >= 0 ? fl->legacy_id : fl->field_id, &got);
+            buf_protect(a.raw, a.size, false);
             uint64_t want = fl->width ? wire::get_bits(mpdu, fl->bit, fl->width) : 0;
             ev("get", strf("b=%d %s.%s via=%s -> 0x%llx", b.id, f->name, fl->name, via.c_str(), (unsigned long long)got));
             n_get++;
@@ -509,6 +536,34 @@ static void exec(const std::string &text, bool verbose) {
             check_bytes(strf("%s.%s:ded-const", f->name, fl->name), strf("after writing the constant 0x%llx to %s.%s through the dedicated setter", (unsigned long long)v, f->name, fl->name));
             b.has_last = false;
             b.wr_seq[fl->name] = op_index; b.wr_task_seq[fl->name] = task_switches; b.wr_via[fl->name] = "ded";
+            continue;
+        }
+        if (what == "vssenc") {
+            if (std::string(f->name) != "Vss" || b.parent >= 0) continue;
+            static const unsigned nb[] = {1, 1, 2, 2, 4, 4, 8, 8, 1, 4, 8};
+            unsigned am = (unsigned)kv.u64("am") & 1, dt = (unsigned)kv.u64("dt");
+            if (dt > 10) continue;
+            size_t plen = am == 1 ? 0 : kv.u64("plen"), pathbytes = am == 1 ? 4 : 2 + plen, n = nb[dt];
+            if (b.off + 12 + pathbytes + n > a.size - kGuard || plen > 65535) continue;
+            uint32_t sid = (uint32_t)kv.u64("sid");
+            uint64_t v = kv.u64("v");
+            std::vector<char> path(plen + 1);
+            Rng pr(kv.u64("pseed", 1));
+            for (auto &ch : path) ch = (char)(0x21 + pr.below(0x5e));
+            ev("vssenc", strf("b=%d am=%u dt=%u plen=%zu v=0x%llx", b.id, am, dt, plen, (unsigned long long)v));
+            char *pp = path.data();
+            DIRTY();
+            drv_vss_encode(pdu, am, dt, sid, pp, (uint16_t)plen, v, nullptr, 0);
+            { const BindField *fl = find_field(f, "ADDR_MODE"); if (fl) wire::set_bits(mpdu, fl->bit, fl->width, am); }
+            { const BindField *fl = find_field(f, "VSS_DATATYPE"); if (fl) wire::set_bits(mpdu, fl->bit, fl->width, dt); }
+            uint8_t *mp = mpdu + 12;
+            if (am == 1) { for (int i = 0; i < 4; i++) mp[i] = (uint8_t)(sid >> (24 - 8 * i)); }
+            else { mp[0] = (uint8_t)(plen >> 8); mp[1] = (uint8_t)plen; memcpy(mp + 2, path.data(), plen); }
+            mp += pathbytes;
+            for (size_t i = 0; i < n; i++) mp[i] = (uint8_t)(v >> (8 * (n - 1 - i)));  // big-endian scalar
+            per_entry["entry.vss_encode"]++;
+            check_bytes(strf("Vss.<encode>:%s", am == 1 ? "static" : "interop"), strf("after encoding datatype 0x%x behind a %s path of %zu bytes", dt, am == 1 ? "static-id" : "interop", plen));
+            b.has_last = false;
             continue;
         }
         if (what == "build" && kv.str("kind") == "vsspad") {
@@ -612,11 +667,12 @@ static void exec(const std::string &text, bool verbose) {
         if (what == "reloc") {
             // only the bytes survive: new address, old block and everything dead is overwritten with fresh garbage
             ev("reloc", strf("b=%d", b.id));
-            uint8_t *nraw = (uint8_t *)malloc(a.size + 8);
+            uint8_t *nraw = buf_alloc(a.size);
+            if (!nraw) continue;
             uint8_t *n = nraw + (kv.u64("align", 0) & 7);
             memcpy(n, a.mem, a.size);
             fill_garbage(a.mem, a.size, garbage);
-            free(a.raw);
+            buf_free(a.raw, a.size);
             a.raw = nraw;
             a.mem = n;
             for (auto &x : bufs)
@@ -678,7 +734,7 @@ int main(int argc, char **argv) {
              "write to a different field of the same quadlet";
     e.probes = {"probe.cross_quadlet_field_written", "probe.value_wider_than_field", "probe.relocation_between_write_and_read", "probe.legacy_write_current_read",
                 "probe.task_switch_between_write_and_read", "probe.acf_message_inside_control_pdu", "probe.second_view_of_same_header", "entry.set.gen", "entry.set.ded", "entry.set.leg",
-                "entry.get.gen", "entry.get.ded", "entry.get.leg", "entry.init.cur", "entry.init.legacy", "entry.fused", "entry.set.constant", "entry.build.create", "entry.build.finalize", "entry.build.setpayload", "entry.build.vsspad", "value.derived",
+                "entry.get.gen", "entry.get.ded", "entry.get.leg", "entry.init.cur", "entry.init.legacy", "entry.fused", "entry.set.constant", "entry.build.create", "entry.build.finalize", "entry.build.setpayload", "entry.build.vsspad", "entry.vss_encode", "value.derived",
                 "probe.unaligned_placement"};
     e.real_components = {"libopen1722 + libopen1722custom objects built from /repo/src (working tree)", "call bindings generated from /repo/include at build time"};
     e.stub_components = {"callers (seeded histories)", "reference model: spec/fields.def + bit-at-a-time packer (spec/wire.h)"};
